@@ -384,15 +384,10 @@ impl World for Poa {
             ));
         }
         drop(rt);
-        let (tape, sim_ms) = with(&sh_out, |s| {
+        ctx.tape = with(&sh_out, |s| {
             s.flush(ctx);
-            (
-                std::mem::replace(&mut s.tape, Tape::replay(vec![])),
-                s.wd_instant,
-            )
+            std::mem::replace(&mut s.tape, Tape::replay(vec![]))
         });
-        ctx.tape = tape;
-        let _ = sim_ms;
         if harness_panic.load(Ordering::SeqCst) {
             panic!("a w5_poa harness task panicked (see first panic location)");
         }
@@ -785,7 +780,6 @@ async fn drive(
     }
     with(&sh, |s| {
         let t = s.now_ms();
-        s.wd_instant = t;
         s.ev(format!(
             "end: db height {} own commits {} net imports {}",
             s.latest(),
